@@ -3,6 +3,7 @@
   NSEC3 Cover / Match interval logic).
 -/
 import DnsModel.Basic
+import DnsModel.Name
 namespace Dns
 
 /-! ### key tag (dnssec.go KeyTag) -/
@@ -72,5 +73,25 @@ def strictlyBetweenCircular (o n x : Nat) : Prop :=
 
 instance (o n x : Nat) : Decidable (strictlyBetweenCircular o n x) := by
   unfold strictlyBetweenCircular; infer_instance
+
+/-! ### what is hashed (dnssec.go `ToDS`, nsecx.go `HashName`) -/
+
+/-- `DNSKEY.ToDS`: the octets handed to the digest — owner name in canonical form ‖ DNSKEY RDATA (RFC 4034 §5.1.4) -/
+def dsInput (owner rdata : Bytes) : Option Bytes :=
+  match packName (canonicalName owner) with
+  | .ok w => some (w ++ rdata)
+  | _ => none
+
+/-- `HashName`: the octets of the first hash — the name in lower case, in wire form ‖ salt (RFC 5155 §5) -/
+def nsec3Input (name salt : Bytes) : Option Bytes :=
+  match packName (lowerAll name) with
+  | .ok w => some (w ++ salt)
+  | _ => none
+
+/-- `HashName` as a whole, generic in the hash function -/
+def hashName (H : Bytes → Bytes) (name salt : Bytes) (iter : Nat) : Option Bytes :=
+  match packName (lowerAll name) with
+  | .ok w => some (hashNameIter H w salt iter)
+  | _ => none
 
 end Dns
